@@ -63,6 +63,11 @@ def _case(draw):
     elif which == "cu2qu":
         fopts = {"reverseDirection": draw(st.booleans())}
         if draw(st.booleans()):
+            # glyphs without any cubic segment: nothing to convert, but their contours are still reversed
+            spec["glyphs"].append({"name": "box", "width": 500, "height": 0, "unicodes": [], "contours": [[[0, 0, "line"], [200, 0, "line"], [200, 300, "line"], [0, 300, "line"]]], "anchors": []})
+            spec["glyphs"].append({"name": "quad", "width": 500, "height": 0, "unicodes": [], "contours": [[[0, 0, "line"], [100, 0, None], [200, 100, "qcurve"], [0, 200, "line"]]], "anchors": []})
+            names += ["box", "quad"]
+        if draw(st.booleans()):
             fopts["rememberCurveType"] = draw(st.booleans())
     elif which == "skip":
         fopts = {"skipExportGlyphs": draw(st.lists(st.sampled_from(names), unique=True, min_size=1, max_size=2))}
@@ -93,6 +98,7 @@ def _case(draw):
         "incmode": incmode,
         "incnames": incnames,
         "inplace": draw(st.sampled_from([False, False, True])),
+        "sparse_last": draw(st.booleans()),
         "glyphset": draw(st.sampled_from(["_GlyphSet", "_GlyphSet", "dict"])),   # the filter API takes any mapping of glyph names to glyphs
     }
 
@@ -285,6 +291,12 @@ def run_case(case, ctx):
         ctx.count("invocations", 4)
     else:
         fonts = [S.build(specA, module), S.build(specB, module)]
+        if case["filter"] == "skip" and case.get("sparse_last"):
+            # a sparse last master: only the simple glyphs that are not skipped
+            keep = [g for g in specB["glyphs"] if not g.get("components") and g["name"] not in case["fopts"]["skipExportGlyphs"]][:2]
+            if keep:
+                fonts.append(S.build(dict(specB, glyphs=copy.deepcopy(keep)), module))
+                ctx.label("sparse-last-master")
         before, after, mod, font_same = run_interp(flt, fonts, inplace)
         if not inplace and not font_same:
             raise Violation("source fonts changed although separate glyph sets were given", filter=case["filter"])
